@@ -16,7 +16,7 @@ From Astisub Require Import Kit.Base Kit.Scan Model.Srt Model.Vtt Model.Ttx Proo
 From Astisub Require Import Model.Ssa Proofs.SsaIgnore Model.SsaC Proofs.SsaChk.
 From Astisub Require Import Kit.Chk Model.SrtC Model.VttC Proofs.SrtChk Proofs.VttChk Model.Dur Model.DurC Proofs.DurChk.
 From Astisub Require Import Model.Stl Model.StlIO Proofs.StlBlocks Proofs.StlIOProofs.
-From Astisub Require Import Kit.Xml Model.Ttml Model.PlainTtml Proofs.TtmlBase Proofs.TtmlIO.
+From Astisub Require Import Kit.Xml Model.Ttml Model.PlainTtml Proofs.TtmlBase Proofs.TtmlIO Model.TtmlGo Proofs.TtmlGoProofs.
 From Astisub Require Model.TtmlC Proofs.TtmlChk.
 Import ListNotations.
 
@@ -94,8 +94,8 @@ Theorem C08_ttml_reader_total_bytes : forall data (p : N), read_ttml_bytes data 
 Proof. exact read_ttml_bytes_total. Qed.
 Theorem C08_ttml_writer_total : forall d (p : N), write_ttml d <> Panic p.
 Proof. exact write_ttml_total. Qed.
-Theorem C08_ttml_writer_total_bytes : forall ind d (p : N), write_ttml_bytes ind d <> Panic p.
-Proof. exact write_ttml_bytes_total. Qed.
+Theorem C08_ttml_writer_total_bytes : forall ind d (p : N), write_ttml_bytes_go ind d <> Panic p.
+Proof. exact write_ttml_bytes_go_total. Qed.
 
 Print Assumptions C08_ttml_reader_total.
 Print Assumptions C08_ttml_reader_total_bytes.
